@@ -420,8 +420,8 @@ func (ds *AnySource) archiveNewDataBlock(block *dataBlock) {
 
 	requestFilled := ab.nSamp >= ab.requestedSamples
 	if requestFilled {
+		ab.active = false // before close(): the writer goroutine copies the struct as soon as complete is closed
 		close(ab.complete)
-		ab.active = false
 	}
 }
 
